@@ -22,7 +22,11 @@ RULE = ("small scope: every run layout with <= 3 runs of 0..3 characters and eve
         "wide / combining characters, explicit False attributes) with random bounds; a small stream of slices with a "
         "step (NotImplementedError, model only). observation: per-character (char, attributes) list of the result, "
         "len(result), exception class. non-trivial = an operand has at least one character; distinct = distinct input")
+GENERATORS = ("gen/gen_pure.py",)
+PURE_HELPERS = ('normalize_slice',)
 TRUSTED = [
+    "translator gen/gen_pure.py (dumps the Python AST of normalize_slice node by node into coq/Gen/Pure.v) and the reference "
+    "semantics of that Python subset coq/Spec/PyMini.v, itself run against CPython on enumerated arguments in every check",
     "Coq 8.16.1 kernel incl. vm_compute (no native_compute); Print Assumptions: closed under the global context",
     "reference list semantics coq/Spec/ListOps.v (pyslice = slice.indices for step None, pyindex, repeat, join)",
     "harness canonicaliser harness/canon.py (FmtStr runs -> cells -> Coq literal) and the parser of coqc's answer",
